@@ -19,9 +19,11 @@ func c18Scenarios(tier string) []*natsmc.Scenario {
 		{Name: "pre-response", Scripts: [][]string{{"pre:60000", "reply:A"}, {"pre:60000", "pre:60000", "reply:B", "reply:C"}}},
 		{Name: "no-responders", Scripts: [][]string{{"503", "reply:A"}, {"reply:B", "503"}}},
 		{Name: "silence", Scripts: [][]string{{"pre:1"}, {}}},
-		// a second pre-response replaces the timer of the first: the reply after the first deadline counts
-		{Name: "pre-response-replaced", Scripts: [][]string{{"pre:150", "pre:60000", "wait:400", "reply:A"}}},
-		{Name: "pre-response-elapsed", Scripts: [][]string{{"pre:60000", "pre:100", "wait:300", "reply:A"}}},
+		// a second pre-response replaces the timer of the first; the extended timers are fired by the
+		// explorer in two steps (xfire: the timer expires, xrun: its function runs), so a reply or another
+		// pre-response can fall between the two
+		{Name: "pre-response-replaced", Scripts: [][]string{{"pre:150", "pre:60000", "reply:A"}}},
+		{Name: "pre-response-elapsed", Scripts: [][]string{{"pre:60000", "pre:100", "reply:A", "reply:B"}}},
 		{Name: "events", Scripts: [][]string{{"reply:A"}}, Events: 3, Unsub: true},
 		{Name: "disconnect", Scripts: [][]string{{"reply:A"}, {"pre:60000"}}, Events: 1, Drop: true},
 		{Name: "close", Scripts: [][]string{{"reply:A"}, {"reply:B"}}, Close: true},
@@ -36,7 +38,7 @@ func c18Scenarios(tier string) []*natsmc.Scenario {
 }
 
 func enumC18(tier string, part, parts, skip int, deadline time.Time, note func(int, string)) *run.EnumResult {
-	res := &run.EnumResult{Exhaustive: true, Extra: map[string]interface{}{}, Rule: "NATS adapter against an in-process server speaking the NATS text protocol (loopback TCP, real nats.go client): every maximal sequence of {send request i, server sends the next scripted message of request i (reply / second reply / pre-response / empty 503), default-timeout pop and fire (owned timer queue, two phases), publish event, Unsubscribe, server disconnect, Close} for 2 (thorough: 3) concurrent requests; model-predicted completion per request compared with the callbacks observed; timer/pending invariant after every action; plus the subject length sweep 3990..4200 for SendRequest and Subscribe. distinct_nontrivial counts sequences in which a reply, a timeout or a disconnect races another event of the same request"}
+	res := &run.EnumResult{Exhaustive: true, Extra: map[string]interface{}{}, Rule: "NATS adapter against an in-process server speaking the NATS text protocol (loopback TCP, real nats.go client): every maximal sequence of {send request i, server sends the next scripted message of request i (reply / second reply / pre-response / empty 503), default-timeout pop and fire (owned timer queue, two phases), extended-timeout expiry and run (owned AfterFunc timers, two phases), publish event, Unsubscribe, server disconnect, Close} for 2 (thorough: 3) concurrent requests; model-predicted completion per request compared with the callbacks observed; timer/pending invariant after every action; plus the subject length sweep 3990..4200 for SendRequest and Subscribe. distinct_nontrivial counts sequences in which a reply, a timeout or a disconnect races another event of the same request"}
 	idx := -1
 	for _, sc := range c18Scenarios(tier) {
 		sc := sc
